@@ -9,6 +9,7 @@ import Driver.Attrs
 import Driver.Serve
 import Driver.Media
 import Driver.Lexer
+import Driver.TagParser
 open Lean
 
 def dispatch (j : Json) : Except String Json := do
@@ -30,6 +31,7 @@ def dispatch (j : Json) : Except String Json := do
   | "media" => Driver.MediaD.handle j
   | "mediaattr" => Driver.MediaD.handleAttr j
   | "lex" => Driver.LexerD.handle j
+  | "parsetag" => Driver.TagParserD.handle j
   | "ping" => pure (Json.mkObj [("pong", Json.bool true)])
   | _ => throw s!"unknown op {op}"
 
